@@ -104,3 +104,196 @@ Proof.
   - destruct (Nat.leb_spec (Z.to_nat start) (Z.to_nat i)); destruct (Nat.ltb_spec (Z.to_nat i) (Z.to_nat start + Z.to_nat (x2 - x1)));
       cbn [andb]; try reflexivity. lia.
 Qed.
+
+(* ---- all rows of a composite ---- *)
+Definition didx (db : rect) (X Y : Z) : Z := (Y - y0 db) * r_w db + (X - x0 db).
+Definition mask_at (mask : option (list Z)) (mr : rect) (X Y : Z) : Z :=
+  match mask with Some m => zn m ((Y - y0 mr) * r_w mr + X - x0 mr) | None => 0 end.
+
+Lemma span_index_iff stride y yb xa xr cnt X Y :
+  0 <= X - xa < stride -> 0 <= xr - xa -> xr - xa + cnt <= stride ->
+  ((y - yb) * stride + xr - xa <= (Y - yb) * stride + (X - xa) < (y - yb) * stride + xr - xa + cnt) <->
+  (Y = y /\ xr <= X < xr + cnt).
+Proof.
+  intros HX H0 H1. split.
+  - intros H.
+    destruct (rowcol_unique stride (Y - yb) (X - xa) (y - yb) ((Y - yb) * stride + (X - xa) - (y - yb) * stride)) as [E1 E2]; [lia|lia|lia|].
+    assert (Y = y) by lia. subst Y. split; [reflexivity|lia].
+  - intros [-> H]. lia.
+Qed.
+
+Lemma composite_rows_spec k sh surf_w db mask mr r ys : forall dest dest',
+  composite_rows 0 k sh surf_w db mask mr r ys dest = Ok dest' ->
+  NoDup ys -> x0 db <= x0 r -> x0 r <= x1 r -> x1 r <= x1 db ->
+  zlen dest' = zlen dest /\
+  forall X Y, x0 db <= X < x1 db -> 0 <= didx db X Y < zlen dest ->
+    (In Y ys /\ x0 r <= X < x1 r ->
+       blit_px k (shade sh X Y) (zn dest (didx db X Y)) (mask_at mask mr X Y) (clip_byte k surf_w X Y) = Ok (zn dest' (didx db X Y))) /\
+    (~ (In Y ys /\ x0 r <= X < x1 r) -> zn dest' (didx db X Y) = zn dest (didx db X Y)).
+Proof.
+  induction ys as [|y t IH]; intros dest dest' H Hnd Hxa Hxr Hxb.
+  - cbn in H. inversion H; subst. split; [reflexivity|]. intros X Y HX Hi. split; [intros [[] _]|reflexivity].
+  - cbn [composite_rows] in H.
+    set (mrow_r := match mask with
+                   | Some m => slice m ((y - y0 mr) * r_w mr + x0 r - x0 mr) ((y - y0 mr) * r_w mr + x1 r - x0 mr)
+                   | None => Ok [] end) in *.
+    destruct mrow_r as [mrow|e] eqn:Em; [|discriminate]. cbn [bind] in H.
+    destruct (blit_span 0 k sh surf_w dest db y (x0 r) (x1 r) mrow) as [d1|e] eqn:Eb; [|discriminate]. cbn [bind] in H.
+    inversion Hnd as [|? ? Hnin Hnd']; subst.
+    destruct (IH d1 dest' H Hnd' Hxa Hxr Hxb) as [L2 P2].
+    pose proof (blit_span_spec _ _ _ _ _ _ _ _ _ _ Eb) as Hs. cbv zeta in Hs.
+    destruct Hs as (L1 & Hs0 & _ & Hse & P1).
+    split; [lia|].
+    intros X Y HX Hi.
+    assert (Hstride : 0 <= X - x0 db < r_w db) by (unfold r_w; lia).
+    pose proof (span_index_iff (r_w db) y (y0 db) (x0 db) (x0 r) (x1 r - x0 r) X Y Hstride ltac:(lia) ltac:(unfold r_w; lia)) as Hiff.
+    unfold didx in *. specialize (P1 _ Hi).
+    destruct (P2 X Y HX ltac:(unfold didx; lia)) as [P2a P2b]. unfold didx in P2a, P2b.
+    destruct (Z.eq_dec Y y) as [->|Ney].
+    + (* the row of this step; later rows leave it alone *)
+      assert (Hd1 : zn dest' ((y - y0 db) * r_w db + (X - x0 db)) = zn d1 ((y - y0 db) * r_w db + (X - x0 db))) by (apply P2b; tauto).
+      rewrite Hd1.
+      destruct (((y - y0 db) * r_w db + x0 r - x0 db <=? (y - y0 db) * r_w db + (X - x0 db)) &&
+                ((y - y0 db) * r_w db + (X - x0 db) <? (y - y0 db) * r_w db + x0 r - x0 db + (x1 r - x0 r))) eqn:Ec.
+      * split; [intros _|intros Hn; exfalso; apply Hn; split; [left; reflexivity|lia]].
+        rewrite <- P1. f_equal.
+        -- f_equal. lia.
+        -- (* mask byte *)
+           unfold mask_at. unfold mrow_r in Em. destruct mask as [m|].
+           ++ apply slice_ok in Em. destruct Em as (Hm0 & _ & _ & Hmn).
+              unfold zn. rewrite Hmn by lia. f_equal. lia.
+           ++ inversion Em; subst mrow. unfold zn. destruct (Z.to_nat _); reflexivity.
+        -- f_equal. lia.
+      * split; [intros [_ Hr]; exfalso; lia|intros _; exact P1].
+    + (* another row *)
+      assert (Hb : zn d1 ((Y - y0 db) * r_w db + (X - x0 db)) = zn dest ((Y - y0 db) * r_w db + (X - x0 db))).
+      { destruct (((y - y0 db) * r_w db + x0 r - x0 db <=? (Y - y0 db) * r_w db + (X - x0 db)) &&
+                  ((Y - y0 db) * r_w db + (X - x0 db) <? (y - y0 db) * r_w db + x0 r - x0 db + (x1 r - x0 r))) eqn:Ec; [|exact P1].
+        exfalso. assert (Y = y) by (apply Hiff; lia). contradiction. }
+      split.
+      * intros [[Hh|Ht] Hr]; [congruence|]. rewrite <- P2a by tauto. rewrite Hb. reflexivity.
+      * intros Hn. rewrite P2b; [exact Hb|]. intros [Ht Hr]. apply Hn. split; [right; exact Ht|exact Hr].
+Qed.
+
+(* ---- DrawTarget::composite ---- *)
+Definition has_mask (m : option (list Z)) : bool := match m with Some _ => true | None => false end.
+
+Lemma set_dest_other st b :
+  d_w (set_dest st b) = d_w st /\ d_h (set_dest st b) = d_h st /\ d_clips (set_dest st b) = d_clips st /\
+  d_ctm (set_dest st b) = d_ctm st /\ d_cur (set_dest st b) = d_cur st /\ d_probe (set_dest st b) = d_probe st /\
+  tl (d_layers (set_dest st b)) = tl (d_layers st) /\
+  (d_layers st <> [] -> d_buf (set_dest st b) = d_buf st) /\
+  (d_layers st = [] -> d_layers (set_dest st b) = []) /\
+  fst (dest_of (set_dest st b)) = b /\ snd (dest_of (set_dest st b)) = snd (dest_of st).
+Proof.
+  unfold set_dest, dest_of. destruct (d_layers st) as [|l t] eqn:El; cbn; rewrite ?El; cbn; repeat split; try reflexivity; try congruence.
+Qed.
+
+(* C03: what composite does to every pixel of the current destination.  Whenever the call
+   returns: with a singular transform or an empty effective rectangle nothing changes; otherwise only
+   the destination buffer changes, it keeps its size, and a pixel (X,Y) of it is untouched outside
+   r = rect /\ clip bounds /\ destination /\ mask rect and inside r becomes the chosen blitter's
+   function of its own inputs only: the shader's colour at (X,Y), its previous value, the mask byte
+   at (X,Y) - mask origin, and the clip mask byte at (X,Y). *)
+Theorem composite_spec st src mask mr rect0 blend alpha st' :
+  d_probe st = 0 -> composite st src mask mr rect0 blend alpha = Ok st' ->
+  match xf_inverse (d_ctm st) with
+  | None => st' = st
+  | Some ti =>
+      let dest := fst (dest_of st) in let db := snd (dest_of st) in
+      let r := r_inter (r_inter (r_inter rect0 (clip_bounds st)) db) mr in
+      if r_empty r then st' = st else
+      let k := choose_blitter (has_mask mask) (top_clip_mask st) blend in
+      let sh := choose_shader ti src alpha in
+      exists dest', st' = set_dest st dest' /\ zlen dest' = zlen dest /\
+        forall X Y, x0 db <= X < x1 db -> 0 <= didx db X Y < zlen dest ->
+          if r_in r X Y
+          then blit_px k (shade sh X Y) (zn dest (didx db X Y)) (mask_at mask mr X Y) (clip_byte k (d_w st) X Y)
+               = Ok (zn dest' (didx db X Y))
+          else zn dest' (didx db X Y) = zn dest (didx db X Y)
+  end.
+Proof.
+  intros Hp H. unfold composite in H.
+  destruct (xf_inverse (d_ctm st)) as [ti|]; [|inversion H; reflexivity].
+  destruct (dest_of st) as [dest db] eqn:Ed. cbn [fst snd].
+  set (r := r_inter (r_inter (r_inter rect0 (clip_bounds st)) db) mr) in *.
+  destruct (r_empty r) eqn:Ee; [inversion H; reflexivity|].
+  replace (match mask with Some _ => true | None => false end) with (has_mask mask) in H by reflexivity.
+  rewrite Hp in H.
+  destruct (composite_rows 0 (choose_blitter (has_mask mask) (top_clip_mask st) blend) (choose_shader ti src alpha)
+              (d_w st) db mask mr r (zrange (y0 r) (y1 r)) dest) as [dest'|e] eqn:Er; [|discriminate].
+  cbn [bind] in H. inversion H; subst st'; clear H.
+  assert (Hne : x0 r < x1 r /\ y0 r < y1 r) by (unfold r_empty in Ee; lia).
+  assert (Hsub : x0 db <= x0 r /\ x1 r <= x1 db /\ y0 db <= y0 r /\ y1 r <= y1 db).
+  { unfold r, r_inter; cbn [x0 y0 x1 y1]. lia. }
+  apply composite_rows_spec in Er; [|apply zrange_from_NoDup|lia|lia|lia].
+  destruct Er as [L P].
+  exists dest'. split; [reflexivity|]. split; [exact L|].
+  intros X Y HX Hi. destruct (P X Y HX Hi) as [Pa Pb].
+  destruct (r_in r X Y) eqn:Ein.
+  - apply Pa. rewrite zrange_In. unfold r_in in Ein. lia.
+  - apply Pb. rewrite zrange_In. unfold r_in in Ein. lia.
+Qed.
+
+(* the pixel functions, spelled out (C03's formula) *)
+Theorem blitter_formula has_m clipmask blend src dst m c :
+  blit_px (choose_blitter has_m clipmask blend) src dst m c =
+  match has_m, clipmask with
+  | false, _ => blend_px blend src dst
+  | true, None => if mode_eqb blend SrcOver then Ok (if m =? 0 then dst else over_in src dst m) else blend_mask_px blend src dst m
+  | true, Some _ => if mode_eqb blend SrcOver then Ok (if (m =? 0) || (c =? 0) then dst else over_in_in src dst m c)
+                    else blend_mask_clip_px blend src dst m c
+  end.
+Proof.
+  unfold choose_blitter. destruct has_m, clipmask; try reflexivity; destruct (mode_eqb blend SrcOver); reflexivity.
+Qed.
+
+Lemma muldiv255_0_l c : muldiv255 0 c = 0.
+Proof. unfold muldiv255. rewrite Z.mul_0_l. reflexivity. Qed.
+Lemma muldiv255_0_r m : muldiv255 m 0 = 0.
+Proof. unfold muldiv255. rewrite Z.mul_0_r. reflexivity. Qed.
+
+(* C02 at the pixel level: zero shape coverage, or zero clip coverage, leaves the pixel bit-identical
+   whatever the blend mode and the source *)
+Theorem blit_px_zero_coverage k src dst m c :
+  (kind_has_mask k = true /\ m = 0) \/ (kind_has_clip k = true /\ c = 0) -> blit_px k src dst m c = Ok dst.
+Proof.
+  intros [[Hk ->]|[Hk ->]]; destruct k; try discriminate; unfold blit_px, blend_mask_px, blend_mask_clip_px;
+    rewrite ?muldiv255_0_l, ?muldiv255_0_r; cbn [Z.eqb orb]; rewrite ?orb_true_r; reflexivity.
+Qed.
+
+(* C02 for composite: a destination pixel outside the effective rectangle, or whose mask byte is 0,
+   or (when a clip path is in force) whose clip byte is 0, keeps its value; nothing but the current
+   destination buffer changes *)
+Theorem composite_frame st src mask mr rect0 blend alpha st' :
+  d_probe st = 0 -> composite st src mask mr rect0 blend alpha = Ok st' ->
+  d_w st' = d_w st /\ d_h st' = d_h st /\ d_clips st' = d_clips st /\ d_ctm st' = d_ctm st /\ d_cur st' = d_cur st /\
+  tl (d_layers st') = tl (d_layers st) /\ (d_layers st <> [] -> d_buf st' = d_buf st) /\
+  snd (dest_of st') = snd (dest_of st) /\ zlen (fst (dest_of st')) = zlen (fst (dest_of st)) /\
+  let dest := fst (dest_of st) in let db := snd (dest_of st) in
+  let r := r_inter (r_inter (r_inter rect0 (clip_bounds st)) db) mr in
+  forall X Y, x0 db <= X < x1 db -> 0 <= didx db X Y < zlen dest ->
+    r_in r X Y = false \/ (has_mask mask = true /\ mask_at mask mr X Y = 0) \/
+    (has_mask mask = true /\ (exists c, top_clip_mask st = Some c /\ zn c (Y * d_w st + X) = 0)) ->
+    zn (fst (dest_of st')) (didx db X Y) = zn dest (didx db X Y).
+Proof.
+  intros Hp H. pose proof (composite_spec _ _ _ _ _ _ _ _ Hp H) as S.
+  destruct (xf_inverse (d_ctm st)) as [ti|].
+  2:{ subst st'. repeat split; try reflexivity; intros; reflexivity. }
+  cbv zeta in S.
+  destruct (r_empty (r_inter (r_inter (r_inter rect0 (clip_bounds st)) (snd (dest_of st))) mr)) eqn:Ee.
+  { subst st'. repeat split; try reflexivity; intros; reflexivity. }
+  destruct S as (dest' & -> & L & P).
+  destruct (set_dest_other st dest') as (A1 & A2 & A3 & A4 & A5 & A6 & A7 & A8 & A9 & A10 & A11).
+  repeat split; try assumption; try (rewrite A10; exact L).
+  cbv zeta. intros X Y HX Hi Hcase. rewrite A10. specialize (P X Y HX Hi).
+  destruct (r_in _ X Y) eqn:Ein.
+  - destruct Hcase as [Hc|Hcase]; [discriminate|].
+    rewrite blit_px_zero_coverage in P; [inversion P; congruence|].
+    destruct Hcase as [[Hm Hz]|[Hm (c & Hc & Hz)]].
+    + left. split; [|exact Hz]. unfold choose_blitter. rewrite Hm.
+      destruct (top_clip_mask st); destruct (mode_eqb blend SrcOver); reflexivity.
+    + right. unfold choose_blitter, clip_byte. rewrite Hm, Hc.
+      destruct (mode_eqb blend SrcOver); cbn [kind_has_clip clip_of_kind]; (split; [reflexivity|exact Hz]).
+  - exact P.
+Qed.
